@@ -295,7 +295,35 @@ pub fn apply_edit(cx: &mut Cx, nm: &mut Namer, file: &mut A2lFile) -> Option<Str
     }
     let mi = cx.tape.draw(file.project.module.len() as u64) as usize;
     let module = &mut file.project.module[mi];
-    match cx.tape.draw(14) {
+    match cx.tape.draw(18) {
+        14 => {
+            // the whole-file operations of the public API are edits like any other: the result must save and reload
+            let before: Vec<String> = file.project.module.iter().map(|m| m.get_name().to_string()).collect();
+            file.sort();
+            let after: Vec<String> = file.project.module.iter().map(|m| m.get_name().to_string()).collect();
+            cx.probe("edit:sort()");
+            if before != after && file.project.module.iter().any(|m| m.a2ml.is_some()) {
+                // known finding KF-C01-2: an A2ML block applies to the IF_DATA that follow it in the file, also in later
+                // MODULEs; sort() orders the MODULEs by name and can move the block behind the IF_DATA it describes
+                cx.trigger("sort()-reordered-the-modules-of-a-file-with-a2ml");
+            }
+            Some("sort()".to_string())
+        }
+        15 => {
+            file.cleanup();
+            cx.probe("edit:cleanup()");
+            Some("cleanup()".to_string())
+        }
+        16 => {
+            file.ifdata_cleanup();
+            cx.probe("edit:ifdata_cleanup()");
+            Some("ifdata_cleanup()".to_string())
+        }
+        17 => {
+            file.sort_new_items();
+            cx.probe("edit:sort_new_items()");
+            Some("sort_new_items()".to_string())
+        }
         13 => {
             // merge_includes() on a model without includes: must not change anything that is written or compared
             file.merge_includes();
@@ -1141,6 +1169,11 @@ impl Scenario for C01FixedInput {
         if text.matches("/begin A2ML").count() >= 2 {
             cx.trigger("more-than-one-a2ml-definition-active");
         }
+        // a first line "#edit:sort" asks for sort() between the first load and the first save
+        let (edit_sort, text) = match text.strip_prefix("#edit:sort\n") {
+            Some(rest) => (true, rest.to_string()),
+            None => (false, text),
+        };
         cx.event_lazy("fixed input", || text.clone());
         let mut model = match sut::load_str(cx, "O1", &text, None, false)? {
             Ok((m, _)) => m,
@@ -1150,6 +1183,15 @@ impl Scenario for C01FixedInput {
                 return Ok(());
             }
         };
+        if edit_sort {
+            let before: Vec<String> = model.project.module.iter().map(|m| m.get_name().to_string()).collect();
+            guarded(cx, "no-panic", "sort()", || model.sort())?;
+            let after: Vec<String> = model.project.module.iter().map(|m| m.get_name().to_string()).collect();
+            if before != after && model.project.module.iter().any(|m| m.a2ml.is_some()) {
+                cx.trigger("sort()-reordered-the-modules-of-a-file-with-a2ml");
+            }
+            cx.event("edit: sort()");
+        }
         let mut prev: Option<String> = None;
         for cycle in 1..=3 {
             let w = sut::write_str(cx, "no-panic", &model)?;
